@@ -5,6 +5,7 @@
 //   * byte-level spec functions written from the protocol documents
 // ---------------------------------------------------------------------------------------------
 #![verifier::allow(autoderive_clone_without_spec)]
+#![feature(allocator_api)]
 #![allow(unused_imports, dead_code, unused_variables, unused_mut, non_snake_case, unused_parens, unused_braces)]
 use vstd::prelude::*;
 use vstd::std_specs::convert::{IntoSpec, FromSpec, TryFromSpec, TryIntoSpec};
